@@ -20,5 +20,19 @@ func ZZ_C19_Escape() {
 	}
 	zzverif.Reach("escaped")
 	back := Unescape(esc)
-	zzverif.Assert(back == s, "roundtrip")
+	// Known finding at the pinned commit: meta characters that are not printable after
+	// Demeta (0x80-0x9F, 0xAD) are written as "\M-\x%2x", which Unescape cannot read back.
+	// Sequences containing one of them are asserted under their own label so that any other
+	// failing sequence is still reported.
+	metaNonPrint := false
+	for _, r := range rs {
+		if (r >= 0x80 && r <= 0x9f) || r == 0xad {
+			metaNonPrint = true
+		}
+	}
+	if metaNonPrint {
+		zzverif.Assert(back == s, "roundtrip-meta-nonprintable")
+	} else {
+		zzverif.Assert(back == s, "roundtrip")
+	}
 }
